@@ -129,6 +129,16 @@ func (c *Counter) WithLabelValues(labelValues ...string) *CounterHandle {
 		return c.tombstoneHandle()
 	}
 
+	// Reserve the series slot before the handle is published. Publishing
+	// first and rolling back with series.Delete afterwards could remove a
+	// handle another goroutine had already obtained from the map (its
+	// emissions were then silently lost) or a different handle stored under
+	// the same hash in the meantime.
+	if n := c.seriesCount.Add(1); c.opts.MaxSeriesPerMetric > 0 && n > int64(c.opts.MaxSeriesPerMetric) {
+		c.seriesCount.Add(-1)
+		return c.tombstoneHandle()
+	}
+
 	candidate := &CounterHandle{
 		counter:     c,
 		labelValues: copyStrings(labelValues),
@@ -137,18 +147,11 @@ func (c *Counter) WithLabelValues(labelValues ...string) *CounterHandle {
 
 	actual, loaded := c.series.LoadOrStore(h, candidate)
 	if loaded {
+		c.seriesCount.Add(-1)
 		existing := actual.(*CounterHandle)
 		if labelValuesEqual(existing.labelValues, labelValues) {
 			return existing
 		}
-		return c.tombstoneHandle()
-	}
-
-	c.seriesCount.Add(1)
-
-	if c.opts.MaxSeriesPerMetric > 0 && c.seriesCount.Load() > int64(c.opts.MaxSeriesPerMetric) {
-		c.series.Delete(h)
-		c.seriesCount.Add(-1)
 		return c.tombstoneHandle()
 	}
 
@@ -197,7 +200,12 @@ func (c *Counter) UnregisterSeries(labelValues ...string) bool {
 	if !labelValuesEqual(entry.labelValues, labelValues) {
 		return false
 	}
-	c.series.Delete(h)
+	// Only the caller that actually removes this entry may release its
+	// slot: two racing UnregisterSeries calls would otherwise both
+	// decrement seriesCount and let the metric exceed its series cap.
+	if !c.series.CompareAndDelete(h, entry) {
+		return false
+	}
 	c.seriesCount.Add(-1)
 	entry.stale.Store(true)
 	return true
